@@ -112,6 +112,12 @@ def main():
         for k in range(0, len(order), 120):
             logs.append(imphist.replay_history(ht, order[k:k + 120], with_kern_reference=True, fresh_reference=True))
             metas.append({'header': ht})
+    # sung text in its order: syllables the kern grammar reads as a rest plus a signifier ('ri-', 'rit.', 'rim', 'rs') followed by
+    # syllables it reads as a single note or rest ('a', 'e', 'ex-', 'cel-', 'la'), on ONE importer object per spine type
+    sung = ['Glo-', 'ri-', 'a', 'in', 'ex-', 'cel-', 'sis', 'De-', 'o', 'rit.', 'e', 'rim', 'la', 'rs', '4c', 'r', 'a', 'ra-', 'ge', 'rL', 'c', '8r_', 'f', 'ri', 'g#', 'rT', 'b-']
+    for ht in TARGETS:
+        logs.append(imphist.replay_history(ht, [gen.lit('text', t) for t in sung], with_kern_reference=True, fresh_reference=True))
+        metas.append({'header': ht})
     imphist.validate(run, logs, metas)
     for log in logs:
         for e in log[1:]:
